@@ -236,7 +236,7 @@ func drawCmdCase(t *simrt.Tape, name string, thorough bool) cmdCase {
 		}
 	case "obiannotate":
 		for k := t.Choose(3); k >= 0; k-- {
-			switch t.Choose(6) {
+			switch t.Choose(7) {
 			case 0:
 				c.Args = append(c.Args, "--length")
 			case 1:
@@ -249,6 +249,8 @@ func drawCmdCase(t *simrt.Tape, name string, thorough bool) cmdCase {
 				c.Args = append(c.Args, "--clear")
 			case 5:
 				c.Args = append(c.Args, "--set-identifier", "annotations.sample")
+			case 6:
+				c.Args = append(c.Args, "--cut", fmt.Sprintf("%d:%d", 1+t.Choose(8), 9+t.Choose(60)))
 			}
 		}
 	case "obicount":
